@@ -356,6 +356,11 @@ def fit_scipy(
             hess_inv = fcn.vm.trans_error_matrix(
                 s.hess_inv * grad_scale, s.x
             )
+        if standard_complex:
+            # while the bounds are still registered: standard_complex skips
+            # bounded parameters, which must stay inside their range
+            fcn.vm.standard_complex()
+            standard_complex = False
         fcn.vm.remove_bound()
 
         xn = fcn.vm.get_all_val()
